@@ -225,7 +225,8 @@ C05_run(H, snt, dl, hops) ==
                    AD == {i \in A : h.dest /\ DestForm(V(H), snt[j].p, PktOf(H, dl[i]))}
                    firstD == CHOOSE i \in AD : \A i2 \in AD : dl[i].n <= dl[i2].n
                    Ok(i) == Abs(h.rtt_us - (dl[i].t - snt[j].t)) <= H.par.poll_us
-               IN A # {} => (Ok(first) \/ (AD # {} /\ Ok(firstD)))
+               \* (a reported RTT needs a reply of that probe to be measured against at all)
+               IN A # {} /\ (Ok(first) \/ (AD # {} /\ Ok(firstD)))
 
 \* the strict form used when duplicates are further apart than one poll interval (serial engine included)
 C05_first(H, snt, dl, hops) == C05_run(H, snt, dl, hops)
